@@ -21,6 +21,7 @@ type TypeD struct {
 type FieldD struct {
 	Tag      *Expr  `json:"tag"`
 	Exported bool   `json:"exported"`
+	Emb      bool   `json:"emb"` // an embedded (anonymous) member
 	T        *TypeD `json:"t"`
 }
 type GV struct {
@@ -55,7 +56,12 @@ type hiddenStructFieldSelf struct {
 	} `xsel:"self::node()"`
 }
 
-func goType(t *TypeD) (reflect.Type, error) {
+func goType(t *TypeD) (reflect.Type, error) { return goTypeP(t, "F") }
+
+// prefix: field names are <prefix><i>; the fields of an embedded member get another prefix than the struct around it, so that Go
+// promotes them (a promoted field is hidden by an outer field of the same name)
+func goTypeP(t *TypeD, prefix string) (reflect.Type, error) {
+	goType := func(t *TypeD) (reflect.Type, error) { return goTypeP(t, prefix) }
 	switch t.K {
 	case "prim":
 		if rt, ok := primTypes[t.P]; ok {
@@ -101,11 +107,17 @@ func goType(t *TypeD) (reflect.Type, error) {
 		}
 		var fs []reflect.StructField
 		for i, f := range t.F {
-			ft, err := goType(f.T)
+			var ft reflect.Type
+			var err error
+			if f.Emb {
+				ft, err = goTypeP(f.T, "E"+prefix)
+			} else {
+				ft, err = goType(f.T)
+			}
 			if err != nil {
 				return nil, err
 			}
-			sf := reflect.StructField{Name: fmt.Sprintf("F%d", i+1), Type: ft}
+			sf := reflect.StructField{Name: fmt.Sprintf("%s%d", prefix, i+1), Type: ft, Anonymous: f.Emb}
 			if f.Tag != nil && f.Tag.Op != "none" {
 				// every other field's tag in abbreviated syntax with minimal spacing (@x, b/@x, ..), the others spelled out
 				text, err := Render(f.Tag, Style{Abbrev: i%2 == 0, Space: 1})
@@ -149,13 +161,47 @@ func prefill(v reflect.Value, t *TypeD) {
 		if !fv.CanSet() {
 			continue
 		}
-		switch fv.Kind() {
-		case reflect.String:
-			fv.SetString(sentinelStr)
-		case reflect.Int, reflect.Int8, reflect.Int16, reflect.Int32, reflect.Int64:
-			fv.SetInt(sentinelNum)
+		sentinelAll(fv)
+	}
+}
+
+// sentinelAll: an untagged member is left alone as a whole - every string and signed-integer field inside it gets the sentinel
+func sentinelAll(fv reflect.Value) {
+	switch fv.Kind() {
+	case reflect.String:
+		fv.SetString(sentinelStr)
+	case reflect.Int, reflect.Int8, reflect.Int16, reflect.Int32, reflect.Int64:
+		fv.SetInt(sentinelNum)
+	case reflect.Struct:
+		for i := 0; i < fv.NumField(); i++ {
+			if fv.Field(i).CanSet() {
+				sentinelAll(fv.Field(i))
+			}
 		}
 	}
+}
+
+// untouched: does an untagged member still hold what prefill put there (zero values when Unmarshal allocated the struct around it)?
+func untouched(fv reflect.Value, fresh bool) bool {
+	if fresh && fv.IsZero() {
+		return true
+	}
+	switch fv.Kind() {
+	case reflect.String:
+		return fv.String() == sentinelStr
+	case reflect.Int, reflect.Int8, reflect.Int16, reflect.Int32, reflect.Int64:
+		return fv.Int() == sentinelNum
+	case reflect.Struct:
+		for i := 0; i < fv.NumField(); i++ {
+			if fv.Field(i).CanSet() && !untouched(fv.Field(i), fresh) {
+				return false
+			}
+		}
+		return true
+	case reflect.Pointer, reflect.Slice, reflect.Map:
+		return fv.IsNil() // prefill leaves these nil
+	}
+	return true
 }
 
 func project(v reflect.Value, t *TypeD) GV { return projectF(v, t, false) }
@@ -201,9 +247,7 @@ func projectF(v reflect.Value, t *TypeD, fresh bool) GV {
 			}
 			if untagged {
 				fv := v.Field(i)
-				ok := (fresh && fv.IsZero()) || (fv.Kind() == reflect.String && fv.String() == sentinelStr) || (fv.Kind() >= reflect.Int && fv.Kind() <= reflect.Int64 && fv.Int() == sentinelNum) ||
-					(fv.Kind() != reflect.String && !(fv.Kind() >= reflect.Int && fv.Kind() <= reflect.Int64))
-				if ok {
+				if untouched(fv, fresh) {
 					out.F = append(out.F, GV{K: "keep"})
 				} else {
 					out.F = append(out.F, GV{K: "overwritten"})
